@@ -300,18 +300,18 @@ func (r *runner) summary() string {
 			case ev.kind == 'D':
 				d = ev
 			case ev.kind == 'B' && ev.gen == k:
-				binds = append(binds, fmt.Sprintf("%d%s=%s", ev.addr, ev.mod, ev.snap.of(ev.addr)))
+				binds = append(binds, fmt.Sprintf("%02d%s=%s", ev.addr, ev.mod, ev.snap.of(ev.addr)))
 			case ev.kind == 'X' && (ev.gen == run[k] && res == "ok" || ev.gen == k && res == "err"):
-				closes = append(closes, fmt.Sprintf("%d%s=%s>%s", ev.addr, ev.mod, ev.snap.of(ev.addr), ev.snap2.of(ev.addr)))
+				closes = append(closes, fmt.Sprintf("%02d%s=%s>%s", ev.addr, ev.mod, ev.snap.of(ev.addr), ev.snap2.of(ev.addr)))
 			}
 		}
 		sort.Strings(binds)
 		sort.Strings(closes)
 		for i := range binds {
-			binds[i] = binds[i][1:]
+			binds[i] = binds[i][2:]
 		}
 		for i := range closes {
-			closes[i] = closes[i][1:]
+			closes[i] = closes[i][2:]
 		}
 		dsnap, dans := "?", "?"
 		if d != nil {
@@ -446,7 +446,7 @@ func (r *runner) oracle() {
 					r.fail("retained-address-usage-count-zero", fmt.Sprintf("%s: unixSockets counter of %s is %d", where, name, ev.snap.ucnt[a-nTCP]))
 				}
 			}
-			if isUnix(a) && len(ev.hold[a]) > 0 && !ev.snap.file[a-nTCP] {
+			if isUnix(a) && a != abs0 && len(ev.hold[a]) > 0 && !ev.snap.file[a-nTCP] {
 				r.fail("unix-socket-file-missing-while-held", fmt.Sprintf("%s: %s has open listeners %v but its socket file does not exist", where, name, ev.hold[a]))
 			}
 		}
@@ -839,6 +839,8 @@ var fixedScenarios = []string{
 	"seq 0d100 1 r0;r0;p0;p1,p0;t0,r0+u0;!r0;p1 1:p1:s;3:p0:t",
 	"seq 0 0 t0,r0,u0;r0,t0;p1;r0 -",
 	"seq 0 0 u0;v0;u0 -",
+	"seq 0 0 a0;a0;-;a0;!a0,t0;t0;a0 -",
+	"seq 0 1 t0,a0;t0,a0;t0;!t0,a0;t0,a0;- 1:a0:r;2:a0:D;5:a0:t",
 	"seq 0 1 t0,u0;t0,u0;t0 1:t0:r;1:u0:D;2:t0:R;2:u0:d;3:t0:T",
 	"seq 300 0 t0;t0;!t0;t0 1:t0:D;2:t0:S;3:t0:R",
 	"seq 0 0 u0;!v0;u0 -",
